@@ -231,13 +231,20 @@ class Ref:
     def ev(self, n, env, act):
         return self.stage(n, env, act)()
 
-    def body(self, forms, env, act):
-        """synthetic do: statements forced in order, the last one staged (its inline part belongs to the parent)"""
+    def body(self, forms, env, act, stmt=False, force=False):
+        """synthetic do: statements forced in order, the last one staged (its inline part belongs to the parent). In statement
+        position (value unused: a non-last body form, or an element of a collection literal that is itself in statement position)
+        the generator emits the value expression of let* / letfn* (force=True; not of do) as a statement of its own, i.e. it is
+        forced at once; the position is handed down to the last form."""
         for f in forms[:-1]:
-            self.ev(f, env, act)
-        return self.stage(forms[-1], env, act)
+            self.stage(f, env, act, True)()
+        th = self.stage(forms[-1], env, act, stmt)
+        if stmt and force and self.hoist:
+            v = th()
+            return lambda: v
+        return th
 
-    def stage(self, n, env, act):
+    def stage(self, n, env, act, stmt=False):
         self.steps += 1
         if self.steps > self.max_steps:
             raise StepLimit()
@@ -260,7 +267,8 @@ class Ref:
                 vals = [self.ev(c, env, act) for c in kids]
                 v = self.apply(n, vals)
                 return lambda: v
-            th = [self.stage(c, env, act) for c in kids]
+            # elements of a vector / set literal inherit the literal's own syntax position; arguments of calls are expressions
+            th = [self.stage(c, env, act, stmt and k in ("vec", "set")) for c in kids]
             return lambda: self.apply(n, [t() for t in th])
         if k == "map":
             ks = [a for a, _ in n[1]]
@@ -269,8 +277,8 @@ class Ref:
                 pairs = [(self.ev(a, env, act), self.ev(c, env, act)) for a, c in n[1]]
                 v = ("map", tuple(pairs))
                 return lambda: v
-            tk = [self.stage(a, env, act) for a in ks]
-            tv = [self.stage(c, env, act) for c in vs]
+            tk = [self.stage(a, env, act, stmt) for a in ks]
+            tv = [self.stage(c, env, act, stmt) for c in vs]
             return lambda: ("map", tuple((a(), c()) for a, c in zip(tk, tv)))
         if k == "fn":
             clo = Closure(n, env, n[1])
@@ -281,15 +289,15 @@ class Ref:
                 br = n[3]
             else:
                 br = n[2]
-            v = None if br is None else self.ev(br, env, act)
+            v = None if br is None else self.stage(br, env, act, stmt)()
             return lambda: v
         if k == "do":
-            return self.body(n[1], env, act)
+            return self.body(n[1], env, act, stmt)
         if k == "let":
             e2 = env
             for i, (nm, init) in enumerate(n[1]):
                 e2 = self.bind(e2, act, (id(n), i), nm, self.ev(init, e2, act))
-            return self.body(n[2], e2, act)
+            return self.body(n[2], e2, act, stmt, force=True)
         if k == "letfn":
             e2 = dict(env)
             cells = []
@@ -299,7 +307,7 @@ class Ref:
                 cells.append(c)
             for c, (nm, f) in zip(cells, n[1]):
                 c.v = Closure(f, e2, f[1])
-            return self.body(n[2], e2, act)
+            return self.body(n[2], e2, act, stmt, force=True)
         if k == "loop":
             e2 = env
             names = []
